@@ -15,7 +15,13 @@ import (
 	"time"
 )
 
-const Root = "/verif"
+// Root is /verif, or the snapshot directory a background run was started in (VERIF_ROOT, set by bin/check).
+var Root = func() string {
+	if r := os.Getenv("VERIF_ROOT"); r != "" {
+		return r
+	}
+	return "/verif"
+}()
 
 // Case is one explored case that failed: everything needed to re-run it.
 type Case struct {
